@@ -387,6 +387,18 @@ var witnesses = []fw.Witness{
 		v.Set("m", data.Meth{V: "x"}).Set("mk", func() func() string { return func() string { return "inner" } })
 		return wout(wone(`{{ m["Val"]() }}|{{ "" + m["Val"]() }}|{{ m["Val"]()[0:3] }}|{{ m.Val()[0:3] }}|{{ "" + mk()() }}|{{ m["Arg"](2) == m.Arg(2) }}`, v, nil), "val:x|val:x|val|val|inner|true")
 	}},
+	{Prop: "C06", Name: "directed:same-named-struct-types-with-other-layouts", Run: func() string {
+		// not a repaired defect: what was learnt about one struct type is not applied to another type that prints the same name
+		for i := 0; i < 2; i++ {
+			if m := wout(wone(`{{ .Label }}#{{ .N }}|{{ .["Label"] }}`, nil, c11rowA()), "report#3|report"); m != "" {
+				return "first type: " + m
+			}
+			if m := wout(wone(`{{ .Label }}#{{ .N }}|{{ .["Label"] }}|{{ .Extra }}`, nil, c11rowB()), "other#99|other|true"); m != "" {
+				return "second type of the same name: " + m
+			}
+		}
+		return ""
+	}},
 	{Prop: "C12", Name: "range-assign-form-with-underscore", Run: func() string {
 		v := jet.VarMap{}
 		v.Set("xs", []string{"a", "b"})
@@ -402,8 +414,20 @@ var witnesses = []fw.Witness{
 	{Prop: "C05", Name: "ranger-behind-interface", Run: func() string {
 		v := jet.VarMap{}
 		v.Set("xs", []interface{}{&c05structR{items: []string{"a"}}, c05sliceR{1, 5}, c05sliceR{0, 0}})
-		return wout(wone(`{{range xs}}{{range v := .}}<{{v}}>{{else}}E{{end}};{{end}}`, v, nil), "<a>;<5>;E;")
+		if m := wout(wone(`{{range xs}}{{range v := .}}<{{v}}>{{else}}E{{end}};{{end}}`, v, nil), "<a>;<5>;E;"); m != "" {
+			return m
+		}
+		// ... and behind an interface type with methods of its own (a struct field, slice elements, a map value)
+		v.Set("h", struct{ R c05tagged }{&c05structR{items: []string{"f"}}})
+		v.Set("ts", []c05tagged{&c05structR{items: []string{"b"}, idx: true}, c05sliceR{2, 7}})
+		v.Set("tm", map[string]c05tagged{"k": c05sliceR{1, 3}})
+		return wout(wone(`{{range v := h.R}}<{{v}}>{{end}}|{{range ts}}{{range i, v := .}}<{{i}}:{{v}}>{{end}};{{end}}|{{range v := tm.k}}<{{v}}>{{end}}|{{range _, e := ts}}{{e.Tag()}}{{end}}`, v, nil), "<f>|<10:b>;<7:2><8:1>;|<3>|structslice")
 	}},
 }
+
+type c05tagged interface{ Tag() string }
+
+func (r *c05structR) Tag() string { return "struct" }
+func (c c05sliceR) Tag() string   { return "slice" }
 
 func init() { fw.RegisterWitnesses(witnesses) }
